@@ -66,8 +66,9 @@ Full statement (what the property demands):
     theorem C16_gc (i : GCIn) (d : String) (h : d ∈ (gc i).1) :
         ∃ c ∈ i.claims, c.name = d ∧ gcMayDelete i c = true
 
-It FAILS for the code as it is, in two ways (both replayed on the real controller, see the negation
-witnesses below and `corpus/c16.gc_lookup/`):
+It FAILED for the code in two ways (both replayed on the real controller, see the negation witnesses below
+and `corpus/c16.gc_lookup/`; way 1 has since been repaired in the tree — the regenerated control-flow fact
+`gcReturnsOnNodeLookupError` says which collector is checked — way 2 is open):
  1. a failed Node lookup is recorded in `errs[i]` but the closure does not `return`: the NodeClaim is deleted
     although "Node absent or not Ready" was not established (its Node may be Ready);
  2. a *duplicate* Node error is deliberately ignored, so a NodeClaim with two Nodes, one of them Ready, is
@@ -148,6 +149,40 @@ theorem C16_gc_list_guards (flag : Bool) (i : GCIn)
 theorem C16_gc_ready_guard (flag : Bool) (i : GCIn) (c : Claim) (h : lookup i c = .one true) :
     (gcOne flag i c).1 = false := by
   unfold gcOne; rw [h]
+
+/-- **C16_gc_terminating_node_is_present** — a Node that carries a deletion timestamp but still exists (it is
+    draining under the termination finalizer) is a *present* Node: rewriting the Nodes' deletion timestamps in
+    any way changes neither what the collector does (deleted NodeClaims, error) nor what the specification
+    permits. "Node absent" means absent. -/
+theorem C16_gc_terminating_node_is_present (flag : Bool) (i : GCIn) (f : GNode → Bool) :
+    gcWith flag (i.withTerminating f) = gcWith flag i ∧
+    ∀ c, gcMayDelete (i.withTerminating f) c = gcMayDelete i c :=
+  ⟨gcWith_withTerminating flag i f, gcMayDelete_withTerminating i f⟩
+
+/-- **C16_gc_ready_terminating_node_kept** — the NodeClaim of a Ready Node is kept whatever the Node's deletion
+    timestamp says: if the lookup works and finds exactly the Node `n`, and `n` is Ready, no Delete is issued
+    (for `n.terminating = true` as for `false`). -/
+theorem C16_gc_ready_terminating_node_kept (flag : Bool) (i : GCIn) (c : Claim) (n : GNode)
+    (hpid : (c.pid == "") = false) (hlk : i.lookupFault.contains c.pid = false)
+    (hn : nodesOf i c.pid = [n]) (hr : n.ready = true) :
+    (gcOne flag i c).1 = false ∧ gcMayDelete i c = false := by
+  have hl : lookup i c = .one true := by
+    unfold lookup
+    rw [hpid, hlk, hn]
+    simp [hr]
+  refine ⟨C16_gc_ready_guard flag i c hl, ?_⟩
+  have hmem : n ∈ i.nodes ∧ (n.pid == c.pid) = true := by
+    have : n ∈ nodesOf i c.pid := by rw [hn]; simp
+    unfold nodesOf at this
+    simpa [List.mem_filter] using this
+  unfold gcMayDelete nodeAbsentOrNotReady
+  have hall : (i.nodes.all (fun n => n.pid != c.pid || !n.ready)) = false := by
+    rw [Bool.eq_false_iff]
+    intro hall
+    have := (List.all_eq_true.mp hall) n hmem.1
+    have hp : n.pid = c.pid := by simpa using hmem.2
+    simp [hp, hr] at this
+  simp [hpid, hall]
 
 /-! ### The two defects, as machine-checked negations of the full statement on concrete witnesses -/
 
@@ -332,6 +367,18 @@ theorem C16_repair_documented (i : RepairIn) (h : 0 < (repair i).deletes) :
   rw [← this]
   exact C16_repair i h
 
+/-- **C16_repair_terminating_nodes_count** — a Node of the pool that carries a deletion timestamp but still
+    exists (e.g. draining after an earlier repair) is still one of "the pool's nodes", and still unhealthy if
+    its condition says so: rewriting the Nodes' deletion timestamps in any way changes neither what node repair
+    does nor what the specification permits.  (Otherwise every repaired node would free budget for the next
+    one and repair would cascade through a pool that is far above 20% unhealthy.) -/
+theorem C16_repair_terminating_nodes_count (i : RepairIn) (f : RNode → Bool) :
+    repair (i.withTerminating f) = repair i ∧
+    ∀ pct, repairMayDelete pct (i.withTerminating f) = repairMayDelete pct i := by
+  refine ⟨?_, fun pct => repairMayDelete_withTerminating pct i f⟩
+  unfold repair
+  rw [repairB_withTerminating]
+
 /-- at most one Delete per pass -/
 theorem C16_repair_at_most_one (i : RepairIn) : (repair i).deletes ≤ 1 := by
   unfold repair repairB
@@ -355,6 +402,37 @@ theorem C16_repair_read_guards (i : RepairIn)
     · unfold repairMayDelete breakerClosed at hm
       simp only [Bool.and_eq_true, beq_iff_eq] at hm
       exact h hm.2.1
+
+/-! ### Node repair over an evolving cluster (one controller, many reconciles, Nodes terminating in between) -/
+
+/-- **C16_repair_seq** — in any run (any cluster, any interleaving of reconciles — with any Node-list / Delete
+    outcomes —, condition changes, Nodes starting to terminate and Nodes disappearing), every reconcile that
+    issues a Delete was permitted to by the cluster as it was at that moment: toleration lasted, pool listed,
+    at most 20% (rounded up) of the pool's nodes — terminating ones included — unhealthy. -/
+theorem C16_repair_seq (ps : List Policy) (st : List SNode) (evs : List REvent)
+    (i : RepairIn) (o : Out) (b : RBranch) (h : some (i, o, b) ∈ runSeq ps st evs) (hd : 0 < o.deletes) :
+    repairMayDelete documentedUnhealthyPercent i = true := by
+  have ho := runSeq_entries ps evs st i o b h
+  subst ho
+  exact C16_repair_documented i hd
+
+/-- **C16_repair_no_cascade** — a pool whose nodes keep their conditions: however often and in whatever order
+    its Nodes are reconciled, and whichever of them start terminating in between (after an earlier repair or
+    for any other reason), node repair issues at most ⌈20%·n⌉ Deletes in total.  Repaired nodes that are
+    draining do not free budget for further repairs. -/
+theorem C16_repair_no_cascade (ps : List Policy) (p : String) (st : List SNode) (evs : List REvent)
+    (hu : Uniform p st) (hq : ∀ ev ∈ evs, Quiet ev) :
+    atMostPercentRoundedUp documentedUnhealthyPercent (totalDeletes (runSeq ps st evs)) st.length = true := by
+  obtain ⟨h1, h2⟩ := runSeq_quiet ps p evs st hu hq
+  by_cases hz : totalDeletes (runSeq ps st evs) = 0
+  · unfold atMostPercentRoundedUp; simp [hz]
+  · have h3 := h2 (by omega)
+    have h4 := pending_le_unh ps st
+    have : totalDeletes (runSeq ps st evs) ≤ scaled documentedUnhealthyPercent st.length true := by
+      have hthr : threshold st.length = scaled documentedUnhealthyPercent st.length true := by
+        rw [threshold_eq, fact_breaker_percent.1]; rfl
+      omega
+    exact (scaled_roundUp_iff _ _ _).mp this
 
 /-! ## Non-vacuity: concrete inputs on which each reaper does issue a Delete (hypotheses satisfiable),
     and boundary behaviour at threshold ± 1 ns -/
@@ -380,6 +458,15 @@ example : gcDeletesOk { gcWitnessLookup with lookupFault := [], nodes := [] } ["
 /-- … and with the Node Ready and the lookup working: kept -/
 example : (gcWith false { gcWitnessLookup with lookupFault := [] }).1 = [] := by decide
 
+/-- the witness cluster with the lookup working and the Ready Node terminating (deletion timestamp set, still
+    present): kept, and the specification forbids the Delete -/
+def gcWitnessTerminating : GCIn :=
+  { gcWitnessLookup with lookupFault := [], nodes := [{ name := "node-00", pid := "fake://i-00", ready := true, terminating := true }] }
+example : (gcWith false gcWitnessTerminating).1 = [] ∧ (gcWith true gcWitnessTerminating).1 = [] := by decide
+example : gcDeletesOk gcWitnessTerminating ["nc-00"] = false := by decide
+/-- … a NotReady terminating Node does not keep it -/
+example : (gc { gcWitnessTerminating with nodes := [{ name := "node-00", pid := "fake://i-00", ready := false, terminating := true }] }).1 = ["nc-00"] := by decide
+
 /-- pool "a": the target and one more node unhealthy, `healthyOthers` healthy ones; toleration 1800 since 1000 -/
 def repairWitness (now : Int) (healthyOthers : Nat) : RepairIn :=
   { policies := [{ type := "BadNode", status := "False", toleration := 1800 }],
@@ -393,5 +480,41 @@ example : (repair (repairWitness 2800 4)).deletes = 1 := by decide          -- 2
 example : (repair (repairWitness 2799 4)) = { deletes := 0, requeue := 1, err := false } := by decide
 example : (repair (repairWitness 2800 3)).deletes = 0 := by decide          -- 2 of 5 > ⌈20%⌉ = 1: breaker open
 example : (repair { repairWitness 2800 4 with nodeListFault := .err }).deletes = 0 := by decide
+
+/-- pool "a" of 10: the target and one more node unhealthy, two further unhealthy nodes already terminating
+    (draining after an earlier repair): 4 of 10 unhealthy > ⌈20%⌉ = 2, the breaker is open … -/
+def repairWitnessTerminating (terminatingToo : List RNode) : RepairIn :=
+  { repairWitness 2800 (8 - terminatingToo.length) with
+    others := (repairWitness 2800 (8 - terminatingToo.length)).others ++ terminatingToo }
+def badTerminating : RNode :=
+  { pool := "a", conds := [{ type := "BadNode", status := "False", since := 1000 }], terminating := true }
+example : (repair (repairWitnessTerminating [badTerminating, badTerminating])).deletes = 0 := by decide
+example : repairMayDelete documentedUnhealthyPercent (repairWitnessTerminating [badTerminating, badTerminating]) = false := by decide
+/-- … while without them (2 of 10) the same node is repaired -/
+example : (repair (repairWitnessTerminating [])).deletes = 1 := by decide
+
+/-- a pool of 10 in which 4 nodes are unhealthy past the toleration is not touched, in whatever order it is
+    reconciled and whichever nodes terminate; with 2 unhealthy both are repaired, and no third Delete follows
+    (the hypotheses of `C16_repair_no_cascade` hold of these runs, and its bound is attained) -/
+def seqPool (unhealthy : Nat) : List SNode :=
+  List.replicate unhealthy { node := { pool := "a", conds := [{ type := "BadNode", status := "False", since := 1000 }] }, claimPool := some "a" } ++
+  List.replicate (10 - unhealthy) { node := { pool := "a", conds := [] }, claimPool := some "a" }
+def seqPolicies : List Policy := [{ type := "BadNode", status := "False", toleration := 1800 }]
+def seqEvents : List REvent :=
+  [.reconcile 0 2800 .none .none, .terminate 0, .reconcile 1 2801 .none .none, .terminate 1,
+   .reconcile 0 2802 .none .none, .reconcile 2 2803 .none .none, .reconcile 3 2804 .none .none, .reconcile 9 2805 .none .none]
+example : totalDeletes (runSeq seqPolicies (seqPool 2) seqEvents) = 2 := by decide
+example : totalDeletes (runSeq seqPolicies (seqPool 4) seqEvents) = 0 := by decide
+example : ∀ ev ∈ seqEvents, Quiet ev := by simp [seqEvents, Quiet]
+example : Uniform "a" (seqPool 2) := by
+  intro s hs
+  simp only [seqPool, List.mem_append, List.mem_replicate] at hs
+  rcases hs with ⟨_, rfl⟩ | ⟨_, rfl⟩ <;> simp
+/-- a node that turns unhealthy while two repaired nodes are still draining (3 of 10 unhealthy) is left alone … -/
+example : totalDeletes (runSeq seqPolicies (seqPool 2)
+    (seqEvents ++ [.setCond 5 { type := "BadNode", status := "False", since := 2900 }, .reconcile 5 9000 .none .none])) = 2 := by decide
+/-- … and is repaired once they are gone (1 of 8) -/
+example : totalDeletes (runSeq seqPolicies (seqPool 2)
+    (seqEvents ++ [.setCond 5 { type := "BadNode", status := "False", since := 2900 }, .gone 0, .gone 1, .reconcile 5 9000 .none .none])) = 3 := by decide
 
 end Karp.C16
